@@ -87,6 +87,33 @@ def random_grammar(rng, names="plain", payload="usize", derive=True, max_nt=4, m
         else:
             ty = rng.choice(TYPES_SIMPLE + TYPES_GENERIC)
         tvs.append({"name": t, "type": ty})
+    if payload != "usize" and tvs and rng.random() < 0.35:
+        # a second terminal whose name differs from an existing one only in letter case, an underscore
+        # or a numeric suffix, with a different payload type, used where the first one is used
+        base = rng.choice(tvs)
+        variants = [base["name"].upper(), base["name"] + "_", base["name"] + "2", base["name"][0] + base["name"][1:].swapcase()]
+        nm = rng.choice([v for v in variants if v != base["name"]] or [base["name"] + "X"])
+        taken = {v["name"] for v in tvs} | set(nts) | {tenum}
+        if nm not in taken:
+            others = [x for x in TYPES_SIMPLE + TYPES_GENERIC if x != base["type"]]
+            tvs.append({"name": nm, "type": rng.choice(others)})
+            for d in decls:
+                fss = [d["fieldset"]] if d["kind"] == "struct" else [v["fieldset"] for v in d["variants"]]
+                for fs in fss:
+                    if fs["kind"] != "empty":
+                        for f in fs["fields"]:
+                            if f["sym"].get("t") == base["name"] and rng.random() < 0.5:
+                                f["sym"] = sym_t(nm)
+            # enum variants must keep distinct symbol sequences
+            for d in decls:
+                if d["kind"] == "enum":
+                    seen, keep = set(), []
+                    for v in d["variants"]:
+                        k = tuple(sym_key(x) for x in fs_syms(v["fieldset"]))
+                        if k not in seen:
+                            seen.add(k)
+                            keep.append(v)
+                    d["variants"] = keep
     term = {"kind": "terminal", "attrs": list(attrs), "name": tenum, "variants": tvs}
     rest = decls + [term]
     rng.shuffle(rest)
